@@ -108,7 +108,7 @@ OPEN_TYPE_ber_get(const asn_codec_ctx_t *opt_codec_ctx,
 
     if(*memb_ptr2) {
         const asn_CHOICE_specifics_t *specs =
-            selected.type_descriptor->specifics;
+            elm->type->specifics;
         if(elm->flags & ATF_POINTER) {
             ASN_STRUCT_FREE(*selected.type_descriptor, inner_value);
             *memb_ptr2 = NULL;
@@ -230,7 +230,7 @@ OPEN_TYPE_xer_get(const asn_codec_ctx_t *opt_codec_ctx,
          */
         if(*memb_ptr2) {
             const asn_CHOICE_specifics_t *specs =
-                selected.type_descriptor->specifics;
+                elm->type->specifics;
             if(elm->flags & ATF_POINTER) {
                 ASN_STRUCT_FREE(*selected.type_descriptor, inner_value);
                 *memb_ptr2 = NULL;
@@ -346,7 +346,7 @@ OPEN_TYPE_uper_get(const asn_codec_ctx_t *opt_codec_ctx,
     case RC_FAIL:
         if(*memb_ptr2) {
             const asn_CHOICE_specifics_t *specs =
-                selected.type_descriptor->specifics;
+                elm->type->specifics;
             if(elm->flags & ATF_POINTER) {
                 ASN_STRUCT_FREE(*selected.type_descriptor, inner_value);
                 *memb_ptr2 = NULL;
